@@ -541,7 +541,38 @@ class Resolver:
                 return True
         return False
 
+    def _annotation_instance(self, fctx: FnCtx, name: str) -> List[AV]:
+        """('instance', ClassInfo, None, None) when the parameter annotation names a repo class."""
+        fn = fctx.fn
+        if isinstance(fn, ast.Lambda):
+            return []
+        a = fn.args
+        for arg in a.posonlyargs + a.args + a.kwonlyargs:
+            if arg.arg == name and arg.annotation is not None:
+                ann = arg.annotation
+                if isinstance(ann, ast.Constant) and isinstance(ann.value, str):
+                    try:
+                        ann = ast.parse(ann.value, mode="eval").body
+                    except SyntaxError:
+                        return []
+                cands = [ann]
+                if isinstance(ann, ast.Subscript):
+                    sl = ann.slice
+                    cands = list(sl.elts) if isinstance(sl, ast.Tuple) else [sl]
+                    cands.append(ann.value)
+                out: List[AV] = []
+                for c in cands:
+                    if isinstance(c, (ast.Name, ast.Attribute)):
+                        r = self.repo.resolve_expr_static(fctx.module, c)
+                        if r.kind == "class" and r.cls is not None:
+                            out.append(("instance", r.cls, None, None))
+                return out
+        return []
+
     def expand_param(self, fctx: FnCtx, name: str, depth: int = 0) -> List[AV]:
+        return self._expand_param(fctx, name, depth) + self._annotation_instance(fctx, name)
+
+    def _expand_param(self, fctx: FnCtx, name: str, depth: int = 0) -> List[AV]:
         fn = fctx.fn
         params = func_params(fn)
         if isinstance(fn, ast.Lambda):
